@@ -536,6 +536,7 @@ class Module:
         s.parse_errors = []
         s._fields = {}
         s._di_struct = None
+        s.peers = ()
         s._load(path)
 
     # -------- loading
@@ -829,6 +830,19 @@ class Module:
                 if all(c is not None for c in cand) or (names is None and any(c is not None for c in cand)):
                     names = [c if c is not None else '#%d' % ix for ix, c in enumerate(cand)]
                     if all(c is not None for c in cand): break
+        if names is None and t is not None and t.k == 'struct':
+            # this TU only declares the struct's objects extern and carries no debug info for it:
+            # take the names from a peer TU of the same program that defines the identical LLVM type
+            for peer in getattr(s, 'peers', ()):
+                if peer is s: continue
+                pt = peer.types.get(tyname)
+                if pt is not None and repr(pt) == repr(t):
+                    saved = peer.__dict__.get('peers'); peer.peers = ()
+                    try: pn = peer.struct_fields(tyname)
+                    finally: peer.peers = saved if saved is not None else ()
+                    if pn and not all(x.startswith('#') for x in pn):
+                        names = pn; break
+                    peer._fields.pop(tyname, None)
         if names is None and t is not None and t.k == 'struct':
             names = ['#%d' % ix for ix in range(len(t.a))]
         s._fields[tyname] = names
@@ -1175,6 +1189,7 @@ class Program:
     def __init__(s, modules):
         s.modules = modules
         s.functions = {}
+        for m in modules: m.peers = modules
         for m in modules:
             for n, f in m.functions.items():
                 if n in s.functions and f.linkage == 'internal':
